@@ -1,5 +1,5 @@
 #!/bin/bash
-# Runs a check against a MUTATED scratch copy of /repo without touching /repo or /verif/harness/target.
+# Runs a check against a MUTATED scratch copy of /repo without touching /repo or <framework>/harness/target.
 #   tools/mutant_run.sh <patch.diff | -e 'sed-expr file'> -- <check args...>
 #   e.g. tools/mutant_run.sh /tmp/m1.diff -- C01 --tier quick
 #        tools/mutant_run.sh -e 's/a < b/a <= b/' yrs/src/ids.rs -- C16 --tier quick
